@@ -18,6 +18,10 @@ CHECKS = {
     "B5": ["C13", "C14", "C15"],
     "B6": ["C19", "C16"],
     "B7": ["C18", "C10", "C17", "C02"],
+    "B8": ["C04", "C05", "C08", "C16", "C17"],
+    "B9": ["C01", "C02", "C17", "C20", "C11", "C03"],
+    "B10": ["C13", "C12", "C15", "C14", "C16"],
+    "B11": ["C10", "C09", "C11", "C03", "C06", "C17"],
 }
 
 
@@ -35,7 +39,7 @@ def run(name):
         if not res["applies"]:
             res["apply_error"] = a.stderr[-300:]
             return res
-        for chk in CHECKS[name[:2]]:
+        for chk in CHECKS[name.split("-")[0]]:
             env = dict(os.environ, VERIF_REPO_SRC=f"{wt}/src")
             p = subprocess.run([f"{V}/check", chk, "--no-evidence"], capture_output=True, text=True, env=env, cwd=V, timeout=3000)
             lines = [ln for ln in p.stdout.splitlines() if not ln.startswith("  claim=")]
